@@ -170,13 +170,6 @@ class Output(ladim.out_netcdf.Output):
             r.snapshot("output.post")
         return out
 
-    def write(self, state):
-        r = _rec()
-        if r is not None:
-            r.call("output", "write")
-            r.snapshot("output.write")
-        return super().write(state)
-
     def close(self):
         r = _rec()
         if r is not None:
